@@ -179,6 +179,45 @@ def free_vars(e):
     return res
 
 
+_NL = {}
+
+
+def is_nonlinear(e):
+    """does e contain a product/quotient/power of non-constant arithmetic terms? (cached)"""
+    i = e.get_id()
+    r = _NL.get(i)
+    if r is not None:
+        return r[1]
+    res = False
+    seen = set()
+    stack = [e]
+    while stack:
+        x = stack.pop()
+        xi = x.get_id()
+        if xi in seen:
+            continue
+        seen.add(xi)
+        if not z3.is_app(x):
+            continue
+        k = x.decl().kind()
+        if k == z3.Z3_OP_MUL:
+            if sum(1 for c in x.children() if not (z3.is_rational_value(c) or z3.is_int_value(c) or z3.is_algebraic_value(c))) >= 2 and (z3.is_real(x) or z3.is_int(x)):
+                res = True
+                break
+        elif k in (z3.Z3_OP_DIV, z3.Z3_OP_IDIV, z3.Z3_OP_MOD, z3.Z3_OP_REM):
+            if not (z3.is_rational_value(x.arg(1)) or z3.is_int_value(x.arg(1))):
+                res = True
+                break
+        elif k == z3.Z3_OP_POWER:
+            res = True
+            break
+        stack.extend(x.children())
+    if len(_NL) > 200000:
+        _NL.clear()
+    _NL[i] = (e, res)
+    return res
+
+
 _LE_KINDS = (z3.Z3_OP_LE, z3.Z3_OP_SLEQ, z3.Z3_OP_ULEQ)
 
 
@@ -296,6 +335,7 @@ class Engine:
         s.nbranch = 0
         s.npruned = 0
         s.nknown = 0
+        s.nnl = 0
 
     # ------------------------------------------------------------------ solver
     def _sync(s, pc):
@@ -364,11 +404,23 @@ class Engine:
                 s.solver.set('timeout', s.o['query_timeout_ms'])
             s.lits = {}
             s.litkeep = []
-        a = [s._lit(c) for c in cons] + [s._lit(c) for c in extras]
-        r = s.solver.check(*a)
+        if any(is_nonlinear(c) for c in extras) or any(is_nonlinear(c) for c in cons):
+            # nonlinear real arithmetic: a dedicated solver, so that these constraints never linger in the shared one
+            nls = z3.Solver()
+            if s.o['query_timeout_ms']:
+                nls.set('timeout', s.o['query_timeout_ms'])
+            nls.add(*cons)
+            nls.add(*extras)
+            r = nls.check()
+            s.nnl += 1
+            solver_used = nls
+        else:
+            a = [s._lit(c) for c in cons] + [s._lit(c) for c in extras]
+            r = s.solver.check(*a)
+            solver_used = s.solver
         m = None
         if r == z3.sat:
-            zm = s.solver.model()
+            zm = solver_used.model()
             vals = dict(st.model.vals) if st.model is not None else {}
             allv = {}
             for c in cons + extras + list(seeds):
@@ -1751,11 +1803,31 @@ def _strlen(s, st, a, ins):
     return len(s.cstr(st, a[0]))
 
 
+def _root_of(s, st, v, what):
+    """a fresh real r >= 0 with r*r == v (exact algebraic square root in the real-number model)"""
+    st.extra['nroots'] = st.extra.get('nroots', 0) + 1
+    r = z3.Real('%s!r%d' % (what, st.extra['nroots']))     # internal, not an input
+    s.assume(st, z3.And(r >= 0, r * r == v))
+    return r
+
+
+def _is_square_float(x):
+    if x < 0 or x != x or x == float('inf'):
+        return False
+    r = math.sqrt(x)
+    from fractions import Fraction
+    return Fraction(r) * Fraction(r) == Fraction(x)
+
+
 @builtin('@sqrt')
 def _sqrt(s, st, a, ins):
     v = a[0]
     if isinstance(v, float):
-        return math.sqrt(v) if v >= 0 else float('nan')
+        if v < 0:
+            return float('nan')
+        if s.o['fp'] != 'real' or not s.o.get('exact_roots') or _is_square_float(v):
+            return math.sqrt(v)
+        return _root_of(s, st, f2real(v), 'sqrt')
     ok, m = s.may(st, v < 0)
     if ok:
         s.report(st, 'fp', 'sqrt of a value that can be negative (NaN)', v < 0, m)
@@ -1763,10 +1835,45 @@ def _sqrt(s, st, a, ins):
         if not okn:
             raise PathEnd()
         s.assume(st, v >= 0, mn)
-    r = s.fresh(st, 'sqrt', 64, 'real')
-    st.syms.pop()   # internal, not an input
-    s.assume(st, z3.And(r >= 0, r * r == v))
-    return r
+    return _root_of(s, st, v, 'sqrt')
+
+
+@builtin('@pow')
+def _pow(s, st, a, ins):
+    x, y = a
+    if isinstance(x, float) and isinstance(y, float) and not s.o.get('exact_roots'):
+        try:
+            return float(math.pow(x, y))
+        except (ValueError, OverflowError):
+            return float('nan')
+    if isinstance(y, float) and y == 1.5:
+        # x^1.5 = sqrt(x^3) for x >= 0; for x < 0 the libm result is NaN
+        xr = realv(x)
+        if isinstance(x, float):
+            if x < 0:
+                return float('nan')
+            if x == 0.0:
+                return 0.0
+        else:
+            ok, m = s.may(st, xr < 0)
+            if ok:
+                s.report(st, 'fp', 'pow(x, 1.5) with x that can be negative (NaN)', xr < 0, m)
+                okn, mn = s.may(st, xr >= 0)
+                if not okn:
+                    raise PathEnd()
+                s.assume(st, xr >= 0, mn)
+        return _root_of(s, st, xr * xr * xr, 'pow15')
+    if isinstance(y, float) and y == float(int(y)) and 0 <= y <= 4:
+        r = 1.0
+        for _ in range(int(y)):
+            r = s.farith(st, 'fmul', r, x)
+        return r
+    if isinstance(x, float) and isinstance(y, float):
+        try:
+            return float(math.pow(x, y))
+        except (ValueError, OverflowError):
+            return float('nan')
+    raise Inconclusive('libm pow on a symbolic argument')
 
 
 def _libm_unsupported(name):
@@ -1785,7 +1892,7 @@ def _libm_unsupported(name):
     return f
 
 
-for _n in ('exp', 'log', 'pow', 'ldexp', 'sin', 'cos', 'tan', 'atan', 'log1p', 'expm1', 'fmod', 'log2', 'log10', 'cbrt'):
+for _n in ('exp', 'log', 'ldexp', 'sin', 'cos', 'tan', 'atan', 'log1p', 'expm1', 'fmod', 'log2', 'log10', 'cbrt'):
     BUILTINS['@' + _n] = _libm_unsupported(_n)
 
 
